@@ -293,6 +293,39 @@ def scene_many_slices(draw):
                           'MIN_SEP_VALS': [60, 60], 'MAX_HITS_OKTA0': 0}}
 
 
+@st.composite
+def scene_limit_crossing(draw):
+    """ Three thin decks A < B < C around a MIN_SEP_LIMS value L: B just below, C just above with more
+    hits, A further below. Merging B and C moves the merged base across L (for mid/high percentiles),
+    which changes the applicable minimum separation. """
+    L = draw(st.sampled_from([3000, 5000, 10000]))
+    small = draw(st.sampled_from([200, 300]))
+    big = draw(st.sampled_from([1500, 2000, 3000]))
+    d_a = draw(st.sampled_from([small + 100, (small + big) // 2, big - 100]))
+    e = draw(st.sampled_from([40, 100, 150]))
+    f = draw(st.sampled_from([2, 40, 100]))
+    nb = draw(st.integers(4, 10))
+    nc = nb + draw(st.integers(2, 12))
+    na = draw(st.integers(4, 12))
+    names = draw(st.lists(st.sampled_from(NAME_POOL), min_size=1, max_size=2, unique=True))
+    n = max(na, nb, nc) + 2
+    meas = [(nm, -900.0 + 30.0 * i + 3 * k) for k, nm in enumerate(names) for i in range(n)]
+    hits = [[] for _ in meas]
+    for i in range(len(meas)):
+        j = i % n
+        if j < na:
+            hits[i].append(float(L - e - d_a))
+        if j < nb:
+            hits[i].append(float(L - e))
+        if j < nc:
+            hits[i].append(float(L + f))
+    rows = rows_from_hits(meas, hits)
+    return {'cls': 'limit_crossing', 'rows': draw(order_rows(rows)),
+            'prms_hint': {'MIN_SEP_VALS': [small, big], 'MIN_SEP_LIMS': [L],
+                          'BASE_LVL_HEIGHT_PERC': draw(st.sampled_from([5, 50, 60, 95])),
+                          'SLICING_PRMS': {'distance_threshold': draw(st.sampled_from([0.01, 0.02]))}}}
+
+
 DEGENERATE_KINDS = ['single_hit', 'all_nan', 'all_vv', 'two_rows', 'identical', 'two_heights',
                     'one_stamp_3hits', 'identical30', 'one_row_nan', 'two_heights_30', 'zero_height']
 
@@ -385,6 +418,7 @@ SCENES = {
     'many_slices': scene_many_slices,
     'degenerate': scene_degenerate,
     'ref_window': scene_ref_window,
+    'limit_crossing': scene_limit_crossing,
 }
 
 
@@ -626,7 +660,7 @@ def merge_dict(a, b):
 @st.composite
 def pipeline_case(draw, weights, vary=('msa', 'okta', 'sep', 'base', 'lowess', 'algo'),
                   anomalies=False, exclude=True, p_default_prms=0.25, global_modes=False,
-                  base_p_default=0.3, msa_kinds=None):
+                  base_p_default=0.3, msa_kinds=None, index_kinds=False):
     """ A scene plus a parameter set. """
     case = draw(scene(weights))
     if anomalies and draw(st.integers(0, 9)) < 3:
@@ -652,11 +686,13 @@ def pipeline_case(draw, weights, vary=('msa', 'okta', 'sep', 'base', 'lowess', '
         ms = case['hint']['min_sep']
         prms['MIN_SEP_VALS'] = [ms, ms]
     out = {'cls': case['cls'], 'rows': case['rows'], 'prms': prms}
-    for k in ('kind', 'anomalies', 'bases'):
+    for k in ('kind', 'anomalies', 'bases', 'hint'):
         if k in case:
             out[k] = case[k]
     if global_modes and draw(st.integers(0, 9)) < 2:
         out['gprms'] = draw(global_height_mode())
+    if index_kinds:
+        out['index'] = draw(st.sampled_from(INDEX_KINDS))
     return out
 
 
@@ -753,3 +789,27 @@ def with_unknown_keys(draw, prms, p=3):
                 set_path(out, path, draw(st.sampled_from([1, 'x', None])))
             n += 1
     return out, n
+
+
+# ------------------------------------------------------------------------------------------------
+# Index labels of the frame handed to ampycloud (values are untouched)
+
+INDEX_KINDS = ['range'] * 5 + ['nonunique', 'nonunique', 'allzero', 'reversed', 'string']
+
+
+def apply_index(df, kind):
+    import pandas as pd
+    n = len(df)
+    if kind == 'nonunique':
+        cnt, lab = {}, []
+        for c in df['ceilo'].tolist():
+            lab.append(cnt.get(c, 0))
+            cnt[c] = cnt.get(c, 0) + 1
+        df.index = pd.Index(lab)
+    elif kind == 'allzero':
+        df.index = pd.Index([0] * n)
+    elif kind == 'reversed':
+        df.index = pd.Index(list(range(n))[::-1])
+    elif kind == 'string':
+        df.index = pd.Index([f'r{i}' for i in range(n)])
+    return df
